@@ -63,7 +63,8 @@ with stmt :=
 | JLabelled (l : label) (s : stmt)
 | JThrow (e : expr)
 | JTry (b : list stmt) (c : option (str * list stmt)) (f : option (list stmt))
-| JSwitch (e : expr) (cases : list (option expr * list stmt)).   (* None = default *)
+| JSwitch (e : expr) (cases : list (option expr * list stmt))   (* None = default *)
+| JWith (o : expr) (body : stmt).
 
 (* ---------- heap ---------- *)
 Inductive okind :=
@@ -71,11 +72,13 @@ Inductive okind :=
 | KFun (params : list str) (body : list stmt) (env : nat)
 | KBound (target : nat) (bthis : val) (bargs : list val)
 | KNative (id : Z)        (* 1 call, 2 apply, 3 bind *)
-| KArgs.
+| KArgs (e : nat) (mapped : list str).   (* 10.6: index i < length mapped is an alias of parameter (nth i mapped) in environment e *)
 
 Record obj := mkobj { o_props : list (str * val); o_proto : option nat; o_kind : okind }.
 (* environment record: declarative (vars) or the global object environment *)
-Record env := mkenv { e_vars : list (str * val); e_outer : option nat; e_global : bool }.
+(* environment record: declarative (e_obj = None, bindings in e_vars) or an object
+   environment whose binding object is e_obj (the global environment: object 0; a `with`) *)
+Record env := mkenv { e_vars : list (str * val); e_outer : option nat; e_obj : option nat }.
 Record state := mkst { objs : list obj; envs : list env; out : list val }.
 
 Fixpoint str_eqb (a b : str) : bool :=
@@ -133,7 +136,7 @@ Definition init_state : state :=
          mkobj [] (Some 2%nat) (KNative 1);
          mkobj [] (Some 2%nat) (KNative 2);
          mkobj [] (Some 2%nat) (KNative 3) ]
-       [ mkenv [] None true ] [].
+       [ mkenv [] None (Some 0%nat) ] [].
 
 (* ---------- property lookup along the prototype chain (fuel = chain length bound) ---------- *)
 Fixpoint get_prop (n : nat) (s : state) (l : nat) (p : str) : option val :=
@@ -173,7 +176,7 @@ Fixpoint lookup_var (n : nat) (s : state) (e : nat) (x : str) : option val :=
     match get_env s e with
     | None => None
     | Some r =>
-      let here := if e_global r then get_prop chain_fuel s 0 x else alist_get x (e_vars r) in
+      let here := match e_obj r with Some l => get_prop chain_fuel s l x | None => alist_get x (e_vars r) end in
       match here with
       | Some v => Some v
       | None => match e_outer r with Some e' => lookup_var n' s e' x | None => None end
@@ -188,11 +191,19 @@ Fixpoint assign_var (n : nat) (s : state) (e : nat) (x : str) (v : val) : state 
     match get_env s e with
     | None => s
     | Some r =>
-      if e_global r then putp s 0 x v
-      else match alist_get x (e_vars r) with
-           | Some _ => set_env s e (mkenv (alist_set x v (e_vars r)) (e_outer r) false)
-           | None => match e_outer r with Some e' => assign_var n' s e' x v | None => putp s 0 x v end
-           end
+      match e_obj r with
+      | Some l =>
+          (* object environment: the binding object has the name, or it is the outermost (global) one *)
+          match e_outer r with
+          | Some e' => if hasp s l x then putp s l x v else assign_var n' s e' x v
+          | None => putp s l x v
+          end
+      | None =>
+          match alist_get x (e_vars r) with
+          | Some _ => set_env s e (mkenv (alist_set x v (e_vars r)) (e_outer r) None)
+          | None => match e_outer r with Some e' => assign_var n' s e' x v | None => putp s 0 x v end
+          end
+      end
     end
   end.
 (* declaration binding: create in THIS environment if absent *)
@@ -200,17 +211,51 @@ Definition declare_var (s : state) (e : nat) (x : str) (v : option val) : state 
   match get_env s e with
   | None => s
   | Some r =>
-    if e_global r then
+    match e_obj r with
+    | Some l =>
       match v with
-      | Some v => putp s 0 x v
-      | None => if hasp s 0 x then s else putp s 0 x WUndef
+      | Some v => putp s l x v
+      | None => if hasp s l x then s else putp s l x WUndef
       end
-    else
+    | None =>
       match v, alist_get x (e_vars r) with
       | None, Some _ => s
-      | None, None => set_env s e (mkenv (e_vars r ++ [(x, WUndef)]) (e_outer r) false)
-      | Some v, _ => set_env s e (mkenv (alist_set x v (e_vars r)) (e_outer r) false)
+      | None, None => set_env s e (mkenv (e_vars r ++ [(x, WUndef)]) (e_outer r) None)
+      | Some v, _ => set_env s e (mkenv (alist_set x v (e_vars r)) (e_outer r) None)
       end
+    end
+  end.
+
+(* identifier references (8.7, 10.2.2.1): the environment record found when the
+   identifier is evaluated; PutValue later acts on THAT record even if the scope
+   chain would resolve the name differently by then *)
+Inductive ref := RObjRef (l : nat) | REnvRef (e : nat) | RUnresolvable.
+Fixpoint resolve_ref (n : nat) (s : state) (e : nat) (x : str) : ref :=
+  match n with
+  | O => RUnresolvable
+  | S n' =>
+    match get_env s e with
+    | None => RUnresolvable
+    | Some r =>
+      let here := match e_obj r with Some l => hasp s l x | None => match alist_get x (e_vars r) with Some _ => true | None => false end end in
+      if here then match e_obj r with Some l => RObjRef l | None => REnvRef e end
+      else match e_outer r with Some e' => resolve_ref n' s e' x | None => RUnresolvable end
+    end
+  end.
+Definition get_ref (s : state) (r : ref) (x : str) : option val :=
+  match r with
+  | RObjRef l => Some (getp s l x)
+  | REnvRef e => match get_env s e with Some rc => Some (match alist_get x (e_vars rc) with Some v => v | None => WUndef end) | None => None end
+  | RUnresolvable => None
+  end.
+Definition put_ref (s : state) (r : ref) (x : str) (v : val) : state :=
+  match r with
+  | RObjRef l => putp s l x v
+  | REnvRef e => match get_env s e with
+                 | Some rc => set_env s e (mkenv (alist_set x v (e_vars rc)) (e_outer rc) None)
+                 | None => s
+                 end
+  | RUnresolvable => putp s 0 x v      (* 8.7.2 step 3: a property of the global object *)
   end.
 
 (* ---------- primitives ---------- *)
@@ -298,6 +343,29 @@ Definition key_of (v : val) : option str :=
   | _ => None
   end.
 
+(* [[Get]] including the arguments-object parameter map (10.6 [[Get]]/MakeArgGetter) *)
+Fixpoint find_index (p : str) (i : Z) (names : list str) : option str :=
+  match names with
+  | [] => None
+  | n :: names' => if str_eqb p (digits_fuel 8 i []) then Some n else find_index p (i + 1) names'
+  end.
+Definition getpx (s : state) (l : nat) (p : str) : val :=
+  match get_obj s l with
+  | Some o =>
+      match o_kind o with
+      | KArgs e names =>
+          match find_index p 0 names with
+          | Some x => match get_env s e with
+                      | Some rc => match alist_get x (e_vars rc) with Some v => v | None => getp s l p end
+                      | None => getp s l p
+                      end
+          | None => getp s l p
+          end
+      | _ => getp s l p
+      end
+  | None => WUndef
+  end.
+
 (* ---------- results ---------- *)
 Inductive res (A : Type) :=
 | Ok (s : state) (a : A)
@@ -339,6 +407,7 @@ Fixpoint hoist_stmt (s : stmt) : list (str * option (list str * list stmt)) :=
   | JWhile _ b | JDoWhile b _ | JFor _ _ _ b => hoist_stmt b
   | JForIn x _ b => (x, None) :: hoist_stmt b
   | JLabelled _ s => hoist_stmt s
+  | JWith _ s => hoist_stmt s
   | JTry b c f => hl b ++ match c with Some (_, c) => hl c | None => [] end
                        ++ match f with Some f => hl f | None => [] end
   | JSwitch _ cs => hc cs
@@ -483,14 +552,17 @@ Definition step (t : task) (s : state) : R :=
                 | None => Exn s (WErr 2)
                 end
     | XThis => okv s (c_this c)
-    | XAssign x e1 => bindv (self (TExpr c e1) s) (fun s1 v => okv (assign_var chain_fuel s1 (c_env c) x v) v)
+    | XAssign x e1 =>
+        let r := resolve_ref chain_fuel s (c_env c) x in
+        bindv (self (TExpr c e1) s) (fun s1 v => okv (put_ref s1 r x v) v)
     | XOpAssign op x e1 =>
-        match lookup_var chain_fuel s (c_env c) x with
+        let r := resolve_ref chain_fuel s (c_env c) x in
+        match get_ref s r x with
         | None => Exn s (WErr 2)
         | Some old =>
             bindv (self (TExpr c e1) s) (fun s1 v =>
               match binval op old v with
-              | Some nv => okv (assign_var chain_fuel s1 (c_env c) x nv) nv
+              | Some nv => okv (put_ref s1 r x nv) nv
               | None => Decline
               end)
         end
@@ -520,7 +592,7 @@ Definition step (t : task) (s : state) : R :=
         bindv (self (TExpr c o) s) (fun s1 vo =>
           bindv (self (TExpr c i) s1) (fun s2 vi =>
             match vo, key_of vi with
-            | WRef l, Some k => okv s2 (getp s2 l k)
+            | WRef l, Some k => okv s2 (getpx s2 l k)
             | WUndef, _ | WNull, _ => type_error s2
             | _, _ => Decline
             end))
@@ -586,7 +658,7 @@ Definition step (t : task) (s : state) : R :=
             | WRef l => match get_obj s2 l with
                         | Some ob => match o_kind ob with
                                      | KFun _ _ _ => self (TConstruct vf vs) s2
-                                     | KObj | KArgs => type_error s2
+                                     | KObj | KArgs _ _ => type_error s2
                                      | _ => Decline
                                      end
                         | None => Decline
@@ -619,7 +691,7 @@ Definition step (t : task) (s : state) : R :=
                         | WRef _, _ => type_error s2
                         | _, _ => okv s2 (WBool false)
                         end
-                    | KObj | KArgs => type_error s2
+                    | KObj | KArgs _ _ => type_error s2
                     | _ => Decline
                     end
                 | None => Decline
@@ -650,8 +722,9 @@ Definition step (t : task) (s : state) : R :=
         match o_kind fo with
         | KFun ps body e =>
             (* 10.4.3 + 10.5 *)
-            let '(s1, al) := new_obj s (mkobj (args_props 0 args ++ [(s_length, WNum (Z.of_nat (length args)))]) (Some 1%nat) KArgs) in
-            let '(s2, ne) := new_env s1 (mkenv (bind_params_lr ps args []) (Some e) false) in
+            let '(s1, al) := new_obj s (mkobj (args_props 0 args ++ [(s_length, WNum (Z.of_nat (length args)))]) (Some 1%nat)
+                                         (KArgs (length (envs s)) (firstn (length args) ps))) in
+            let '(s2, ne) := new_env s1 (mkenv (bind_params_lr ps args []) (Some e) None) in
             let ds := hoist body in
             let s3 := inst_decls s2 ne ds in
             let s4 := match alist_get s_arguments (match get_env s3 ne with Some r => e_vars r | None => [] end) with
@@ -682,7 +755,7 @@ Definition step (t : task) (s : state) : R :=
               | t :: WRef al :: _ =>
                   match getp s al s_length with
                   | WNum n =>
-                      let vs := map (fun i => getp s al (digits_fuel 8 (Z.of_nat i) [])) (seq 0 (Z.to_nat n)) in
+                      let vs := map (fun i => getpx s al (digits_fuel 8 (Z.of_nat i) [])) (seq 0 (Z.to_nat n)) in
                       self (TCall this t vs) s
                   | WUndef => self (TCall this t []) s
                   | _ => Decline
@@ -728,7 +801,9 @@ Definition step (t : task) (s : state) : R :=
     match st with
     | JExpr e => bindv (self (TExpr c e) s) (fun s1 v => okc s1 (QNormal (Some v)))
     | JVar x None => okc s (QNormal None)
-    | JVar x (Some e) => bindv (self (TExpr c e) s) (fun s1 v => okc (assign_var chain_fuel s1 (c_env c) x v) (QNormal None))
+    | JVar x (Some e) =>
+        let r := resolve_ref chain_fuel s (c_env c) x in
+        bindv (self (TExpr c e) s) (fun s1 v => okc (put_ref s1 r x v) (QNormal None))
     | JFunDecl _ _ _ => okc s (QNormal None)
     | JBlock l => self (TList c l) s
     | JIf e a b =>
@@ -765,7 +840,7 @@ Definition step (t : task) (s : state) : R :=
         let r2 := match r1, cb with
                   | Exn s1 v, Some (x, cl) =>
                       (* 12.14: a new declarative environment binding the exception *)
-                      let '(s2, ne) := new_env s1 (mkenv [(x, v)] (Some (c_env c)) false) in
+                      let '(s2, ne) := new_env s1 (mkenv [(x, v)] (Some (c_env c)) None) in
                       self (TList (mkctx ne (c_this c)) cl) s2
                   | _, _ => r1
                   end in
@@ -778,6 +853,16 @@ Definition step (t : task) (s : state) : R :=
             | r => r
             end
         end
+    | JWith o body =>
+        (* 12.10: a new object environment over ToObject(o) for the body; restored on every exit *)
+        bindv (self (TExpr c o) s) (fun s1 vo =>
+          match vo with
+          | WRef l =>
+              let '(s2, ne) := new_env s1 (mkenv [] (Some (c_env c)) (Some l)) in
+              self (TStmt (mkctx ne (c_this c)) [] body) s2
+          | WUndef | WNull => type_error s1
+          | _ => Decline
+          end)
     | JSwitch e cases =>
         bindv (self (TExpr c e) s) (fun s1 v =>
           bindc (self (TCases c v cases cases) s1) (fun s2 cm =>
@@ -854,6 +939,22 @@ Fixpoint run (fuel : nat) (t : task) (s : state) : R :=
 
 (* ---------- whole programs (global code, 10.4.1 + 10.5) ---------- *)
 Inductive outcome := FNormal | FThrew (v : val) | FOutOfFuel | FDeclined.
+
+(* does global code (not descending into function bodies) contain a break or continue? *)
+Fixpoint jumps_stmt (s : stmt) : bool :=
+  let fix jl (l : list stmt) := match l with [] => false | x :: xs => jumps_stmt x || jl xs end in
+  let fix jc (l : list (option expr * list stmt)) := match l with [] => false | (_, b) :: xs => jl b || jc xs end in
+  match s with
+  | JBreak _ | JContinue _ => true
+  | JBlock l => jl l
+  | JIf _ a b => jumps_stmt a || match b with Some b => jumps_stmt b | None => false end
+  | JWhile _ b | JDoWhile b _ | JFor _ _ _ b | JForIn _ _ b | JLabelled _ b | JWith _ b => jumps_stmt b
+  | JTry b c f => jl b || match c with Some (_, c) => jl c | None => false end
+                       || match f with Some f => jl f | None => false end
+  | JSwitch _ cs => jc cs
+  | _ => false
+  end.
+Definition has_jump_top (p : list stmt) : bool := existsb jumps_stmt p.
 
 (* log, outcome, completion value of the program (14: the value of its SourceElements; empty -> undefined) *)
 Definition run_program_cv (fuel : nat) (p : list stmt) : list val * outcome * val :=
